@@ -16,7 +16,7 @@ RULE = (
     "must produce/consume exactly the bytes of the little-endian object and of the reference encoder (value-shift code, so "
     "running it on x86 is faithful). (b) runtime library built with -DBP_BIG_ENDIAN: COMPLETE enumeration of width 1..64 x "
     "bit offset 0..7 x basis values (0, all ones, every single bit, alternating, edges) x noise for BpEndecodeBaseType, "
-    "standard-width BpEndecodeInt, and BpEndecodeArray (every element width x capacity 1..5 x offset, incl. the widths whose "
+    "standard-width BpEndecodeInt, and BpEndecodeArray (every element width x capacity {1..9, 12, 16, 17, 33} x offset, incl. the widths whose "
     "batch copy must be disabled), with storage laid out big-endian BY THE HARNESS; wire bytes must equal a bit-loop "
     "reference and the little-endian build's digests; decode must reproduce the big-endian storage. Built with gcc/clang at "
     "-O0/-O2 and with ASan+UBSan. Non-trivial: width > 8 (byte order matters) or offset != 0; counted by the harness."
